@@ -486,7 +486,10 @@ def check_run(ctx, rec, history, baseline=None, region_only=False, expect_ok=Non
             ctx.violation(f'{history}/{label}: acceptor rejects the observed trace at op {idx} ({desc["rejected_at"]}): '
                           f'{CODES.get(code, code)}',
                           dict(desc, **{'class': f'acceptor-rejects:{code}', 'ops': [describe_op(rec, i) for i in range(max(0, idx - 5), idx + 1)]}),
-                          no_input=(not bad_b))
+                          # the acceptor's codes ARE the clauses of the property (an input written, something made outside
+                          # the run's own scratch names and the declared outputs, a stale entry looked at, ...): the job and
+                          # the operation it refuses are the failing history
+                          no_input=False)
         return rec
     ctx.dist('acceptor', 'accepted')
     ctx.traces_validated += 1
